@@ -70,7 +70,7 @@ def obligations(tier):
         obs.append(ob("read_shape%d_fion%s" % (s, FR[f]), "harness_read", ["VP_READ", "SHAPE=%d" % s, "VP_FRI=%d" % f],
                       "evbuffer_read from [%s], FIONREAD %s, howmuch in %s" % (SHAPES[s], FR[f], HM_R)))
     for s, h in wplan:
-        obs.append(ob("write_shape%d_hm%d" % (s, HM_W[h]), "harness_write", ["VP_WRITE", "SHAPE=%d" % s, "VP_HMI=%d" % h] + (["KF_EXCLUDE_SENDFILE_HOWMUCH"] if s == 8 else []),
+        obs.append(ob("write_shape%d_hm%d" % (s, HM_W[h]), "harness_write", ["VP_WRITE", "SHAPE=%d" % s, "VP_HMI=%d" % h] + (["KF_EXCLUDE_SENDFILE_HOWMUCH"] if s == 8 else []) + (["VP_NO_PROGRESS"] if HM_W[h] == 0 else []),
                       "evbuffer_write%s from [%s], every accepted count" % ("" if HM_W[h] == -1 else "_atmost(howmuch=%d)" % HM_W[h], SHAPES[s])))
     for k, s, x in twins:
         if k == "r":
